@@ -85,6 +85,14 @@ var table = []spec{
 	{Dir: "pkg/protocol", Name: "lowEntropyEncodedPayloadLen"},
 	{Dir: "pkg/protocol", Name: "maxFragmentSize"},
 	{Dir: "pkg/cipher", Name: "increaseNonce", Recv: "aeadBlockCipher"},
+	{Dir: "pkg/mathext", Name: "Mid", Inst: map[string]string{"T": "uint32"}, Sfx: "_uint32"},
+	{Dir: "pkg/mathext", Name: "WithinRange", Inst: map[string]string{"T": "uint32"}, Sfx: "_uint32"},
+	{Dir: "pkg/protocol", Name: "Equals", Recv: "protocolType"},
+	{Dir: "pkg/protocol", Name: "Protocol", Recv: "sessionStruct"},
+	{Dir: "pkg/protocol", Name: "Protocol", Recv: "dataAckStruct"},
+	{Dir: "pkg/protocol", Name: "Marshal", Recv: "sessionStruct"},
+	{Dir: "pkg/protocol", Name: "Unmarshal", Recv: "sessionStruct"},
+	{Dir: "pkg/protocol", Name: "Marshal", Recv: "dataAckStruct"},
 }
 
 type pkgInfo struct {
@@ -166,7 +174,7 @@ func loadPkg(dir string) (*pkgInfo, error) {
 	}
 	var terrs []string
 	conf := types.Config{Importer: importer.ForCompiler(fset, "gc", lookup), Error: func(err error) { terrs = append(terrs, err.Error()) }}
-	p.info = &types.Info{Types: map[ast.Expr]types.TypeAndValue{}, Defs: map[*ast.Ident]types.Object{}, Uses: map[*ast.Ident]types.Object{}, Instances: map[*ast.Ident]types.Instance{}}
+	p.info = &types.Info{Types: map[ast.Expr]types.TypeAndValue{}, Defs: map[*ast.Ident]types.Object{}, Uses: map[*ast.Ident]types.Object{}, Instances: map[*ast.Ident]types.Instance{}, Selections: map[*ast.SelectorExpr]*types.Selection{}}
 	p.pkg, _ = conf.Check(modulePath()+"/"+dir, fset, p.files, p.info)
 	if len(terrs) > 0 {
 		return nil, fmt.Errorf("type errors in %s: %s", dir, strings.Join(terrs, "; "))
@@ -198,7 +206,23 @@ type tr struct {
 	breakK  string          // continuation of a `break` of the innermost loop ("" = no break allowed here)
 	results int
 	total   map[string]string // "pkgpath.Name<sfx>" -> coq name of already translated loop-free functions
+	// slices that are not receiver fields: locals created by make (never copied, so never aliased) and read-only parameters
+	sliceLocal map[types.Object]bool
+	sliceParam map[types.Object]bool
+	constLen   map[types.Object]int64 // locals created by make with a constant length: indexes inside it need no test
+	usesNow    bool                   // the body calls time.Now().Unix(): the clock becomes the last parameter v_now
+	fieldKey   map[*types.Var]string  // receiver field -> index path (one path per field object)
+	valueRecv  bool                   // method of an integer type: the receiver is an ordinary first parameter
 }
+
+// methodInfo: a translated total method of a struct type that assigns no field (callable from other methods of the type).
+type methodInfo struct {
+	coq    string
+	fields []*types.Var
+	keys   []string
+}
+
+var methods = map[string]methodInfo{}
 
 func (t *tr) bad(n ast.Node, format string, a ...interface{}) error {
 	if n == nil {
@@ -287,24 +311,50 @@ func (t *tr) sliceElem(ty types.Type) (types.Type, bool) {
 	return sl.Elem(), true
 }
 
-// recvField: e is `c.f` with c the receiver; returns the field.
-func (t *tr) recvField(e ast.Expr) *types.Var {
+// recvPath: e is `c.f` or `c.g.f` (g a struct-typed field, not a pointer) with c the receiver; returns the field and its
+// index path from the receiver's struct.
+func (t *tr) recvPath(e ast.Expr) (*types.Var, []int) {
 	se, ok := e.(*ast.SelectorExpr)
 	if !ok || t.recv == nil {
-		return nil
+		return nil, nil
 	}
-	id, ok := se.X.(*ast.Ident)
-	if !ok || t.p.info.Uses[id] != t.recv {
-		return nil
+	sel := t.p.info.Selections[se]
+	if sel == nil || sel.Kind() != types.FieldVal {
+		return nil, nil
 	}
-	f, ok := t.p.info.Uses[se.Sel].(*types.Var)
+	f, ok := sel.Obj().(*types.Var)
 	if !ok || !f.IsField() {
+		return nil, nil
+	}
+	if id, ok := se.X.(*ast.Ident); ok && t.p.info.Uses[id] == t.recv {
+		return f, append([]int{}, sel.Index()...)
+	}
+	g, idx := t.recvPath(se.X)
+	if g == nil {
+		return nil, nil
+	}
+	if _, ok := g.Type().Underlying().(*types.Struct); !ok {
+		return nil, nil
+	}
+	return f, append(idx, sel.Index()...)
+}
+
+// recvField: e is a field of the receiver (possibly nested); returns the field.
+func (t *tr) recvField(e ast.Expr) *types.Var {
+	f, idx := t.recvPath(e)
+	if f == nil {
 		return nil
 	}
+	key := fmt.Sprint(idx)
+	if old, ok := t.fieldKey[f]; ok && old != key {
+		return nil // the same field object reached through two paths: not in the fragment
+	}
+	t.fieldKey[f] = key
 	return f
 }
 
-// sliceRef: e must be a slice-typed receiver field (the only slices of the fragment); returns its Coq name.
+// sliceRef: e must be a slice-typed receiver field, a local slice created by make, or a slice parameter; returns its
+// Coq name.
 func (t *tr) sliceRef(e ast.Expr) (string, types.Type, error) {
 	for {
 		pe, ok := e.(*ast.ParenExpr)
@@ -313,15 +363,126 @@ func (t *tr) sliceRef(e ast.Expr) (string, types.Type, error) {
 		}
 		e = pe.X
 	}
+	if id, ok := e.(*ast.Ident); ok {
+		o := t.p.info.Uses[id]
+		if o != nil && (t.sliceLocal[o] || t.sliceParam[o]) {
+			el, ok := t.sliceElem(o.Type())
+			if !ok {
+				return "", nil, t.bad(e, "variable %s of type %s used as a slice of integers", id.Name, o.Type())
+			}
+			return t.name(o), el, nil
+		}
+	}
 	f := t.recvField(e)
 	if f == nil {
-		return "", nil, t.bad(e, "slice that is not a field of the receiver")
+		return "", nil, t.bad(e, "slice that is neither a field of the receiver, a local made by make, nor a parameter")
 	}
 	el, ok := t.sliceElem(f.Type())
 	if !ok {
 		return "", nil, t.bad(e, "field %s of type %s used as a slice of integers", f.Name(), f.Type())
 	}
 	return t.name(f), el, nil
+}
+
+// sliceObj: the variable behind a slice expression that is a plain identifier (nil for a receiver field).
+func (t *tr) sliceObj(e ast.Expr) types.Object {
+	for {
+		pe, ok := e.(*ast.ParenExpr)
+		if !ok {
+			break
+		}
+		e = pe.X
+	}
+	if id, ok := e.(*ast.Ident); ok {
+		return t.p.info.Uses[id]
+	}
+	return nil
+}
+
+// inConstLen: the w elements from the constant index of e on lie inside a local of constant length (no run-time test).
+func (t *tr) inConstLen(x ast.Expr, index ast.Expr, w int64) bool {
+	o := t.sliceObj(x)
+	if o == nil {
+		return false
+	}
+	n, ok := t.constLen[o]
+	if !ok {
+		return false
+	}
+	var c int64
+	if index != nil {
+		v := t.p.info.Types[index].Value
+		if v == nil || v.Kind() != constant.Int {
+			return false
+		}
+		c, ok = constant.Int64Val(v)
+		if !ok {
+			return false
+		}
+	}
+	return 0 <= c && c+w <= n
+}
+
+// beCall: e is binary.BigEndian.<name>(args); returns name.
+func (t *tr) beCall(e *ast.CallExpr) string {
+	se, ok := e.Fun.(*ast.SelectorExpr)
+	if !ok {
+		return ""
+	}
+	in, ok := se.X.(*ast.SelectorExpr)
+	if !ok || in.Sel.Name != "BigEndian" {
+		return ""
+	}
+	pk, ok := in.X.(*ast.Ident)
+	if !ok {
+		return ""
+	}
+	pn, ok := t.p.info.Uses[pk].(*types.PkgName)
+	if !ok || pn.Imported().Path() != "encoding/binary" {
+		return ""
+	}
+	return se.Sel.Name
+}
+
+// beArg: the slice operand of a binary.BigEndian call: `b` or `b[k:]`; returns the slice expression and the offset (nil = 0).
+func (t *tr) beArg(a ast.Expr) (ast.Expr, ast.Expr, error) {
+	if sl, ok := a.(*ast.SliceExpr); ok {
+		if sl.High != nil || sl.Max != nil || sl.Slice3 {
+			return nil, nil, t.bad(a, "slice expression other than b[k:]")
+		}
+		return sl.X, sl.Low, nil
+	}
+	return a, nil, nil
+}
+
+var beWidth = map[string]int64{"Uint16": 2, "Uint32": 4, "Uint64": 8, "PutUint16": 2, "PutUint32": 4, "PutUint64": 8}
+
+// beAccess translates the slice and offset of a binary.BigEndian access of width w and records its bounds test.
+func (t *tr) beAccess(a ast.Expr, w int64) (string, string, types.Object, error) {
+	xe, off, err := t.beArg(a)
+	if err != nil {
+		return "", "", nil, err
+	}
+	x, el, err := t.sliceRef(xe)
+	if err != nil {
+		return "", "", nil, err
+	}
+	if s, _ := t.ity(el, a); s != "(U 8)" {
+		return "", "", nil, t.bad(a, "binary.BigEndian on a slice that is not []byte")
+	}
+	k := "0"
+	if off != nil {
+		if k, err = t.expr(off); err != nil {
+			return "", "", nil, err
+		}
+	}
+	if !t.inConstLen(xe, off, w) {
+		if !t.partial {
+			return "", "", nil, t.bad(a, "internal: slice access in a function not marked partial")
+		}
+		t.guards = append(t.guards, fmt.Sprintf("(andb (Z.leb 0 %s) (Z.leb (%s + %d) (go_len %s)))", k, k, w, x))
+	}
+	return x, k, t.sliceObj(xe), nil
 }
 
 func (t *tr) coqType(ty types.Type, n ast.Node) (string, error) {
@@ -467,7 +628,7 @@ func (t *tr) expr(e ast.Expr) (string, error) {
 		if err != nil {
 			return "", err
 		}
-		if !t.partial {
+		if !t.partial && !t.inConstLen(e.X, e.Index, 1) {
 			return "", t.bad(e, "internal: index expression in a function not marked partial")
 		}
 		if _, err := t.ity(el, e); err != nil {
@@ -477,7 +638,9 @@ func (t *tr) expr(e ast.Expr) (string, error) {
 		if err != nil {
 			return "", err
 		}
-		t.guards = append(t.guards, "(andb (Z.leb 0 "+j+") (Z.ltb "+j+" (go_len "+x+")))")
+		if !t.inConstLen(e.X, e.Index, 1) {
+			t.guards = append(t.guards, "(andb (Z.leb 0 "+j+") (Z.ltb "+j+" (go_len "+x+")))")
+		}
 		return "(go_nth " + x + " " + j + ")", nil
 	case *ast.SelectorExpr:
 		if f := t.recvField(e); f != nil {
@@ -529,7 +692,10 @@ func (t *tr) expr(e ast.Expr) (string, error) {
 		}
 		if v, ok := o.(*types.Var); ok && !v.IsField() {
 			if _, isSlice := v.Type().Underlying().(*types.Slice); isSlice {
-				return "", t.bad(e, "slice variable %s (only receiver fields may be slices)", e.Name)
+				if t.sliceLocal[v] || t.sliceParam[v] {
+					return t.name(v), nil // a value only where no second name for the array can arise (return, call argument)
+				}
+				return "", t.bad(e, "slice variable %s (only receiver fields, locals made by make and parameters may be slices)", e.Name)
 			}
 			if v.Parent() == t.p.pkg.Scope() || (v.Pkg() != nil && v.Parent() == v.Pkg().Scope()) {
 				return "", t.bad(e, "package-level variable %s", e.Name)
@@ -709,6 +875,95 @@ func (t *tr) expr(e ast.Expr) (string, error) {
 					return "", err
 				}
 				return "(go_len " + x + ")", nil
+			}
+		}
+		if fid, ok := e.Fun.(*ast.Ident); ok {
+			if b, ok := t.p.info.Uses[fid].(*types.Builtin); ok && b.Name() == "make" && len(e.Args) == 2 {
+				if _, ok := t.sliceElem(tv.Type); !ok {
+					return "", t.bad(e, "make of %s", tv.Type)
+				}
+				n, err := t.expr(e.Args[1])
+				if err != nil {
+					return "", err
+				}
+				if nv := t.p.info.Types[e.Args[1]].Value; nv == nil || constant.Sign(nv) < 0 {
+					if !t.partial {
+						return "", t.bad(e, "make with a length that is not a non-negative constant")
+					}
+					t.guards = append(t.guards, "(Z.leb 0 "+n+")")
+				}
+				return "(go_make " + n + ")", nil
+			}
+		}
+		if name := t.beCall(e); name != "" {
+			w, ok := beWidth[name]
+			if !ok || strings.HasPrefix(name, "Put") || len(e.Args) != 1 {
+				return "", t.bad(e, "binary.BigEndian.%s as an expression", name)
+			}
+			x, k, _, err := t.beAccess(e.Args[0], w)
+			if err != nil {
+				return "", err
+			}
+			return fmt.Sprintf("(go_be%d %s %s)", w*8, x, k), nil
+		}
+		if se, ok := e.Fun.(*ast.SelectorExpr); ok && se.Sel.Name == "Unix" && len(e.Args) == 0 {
+			if in, ok := se.X.(*ast.CallExpr); ok && len(in.Args) == 0 {
+				if ise, ok := in.Fun.(*ast.SelectorExpr); ok && ise.Sel.Name == "Now" {
+					if pk, ok := ise.X.(*ast.Ident); ok {
+						if pn, ok := t.p.info.Uses[pk].(*types.PkgName); ok && pn.Imported().Path() == "time" {
+							t.usesNow = true
+							return "v_now", nil // the clock (seconds since the Unix epoch) is a parameter
+						}
+					}
+				}
+			}
+		}
+		if se, ok := e.Fun.(*ast.SelectorExpr); ok {
+			if sel := t.p.info.Selections[se]; sel != nil && sel.Kind() == types.MethodVal {
+				fo := sel.Obj().(*types.Func)
+				rt := fo.Type().(*types.Signature).Recv().Type()
+				if pt, ok := rt.(*types.Pointer); ok {
+					rt = pt.Elem()
+				}
+				nt, ok := rt.(*types.Named)
+				if !ok || fo.Pkg() == nil {
+					return "", t.bad(e, "call of method %s", fo.Name())
+				}
+				key := fo.Pkg().Path() + "." + nt.Obj().Name() + "." + fo.Name()
+				var args []string
+				for _, a := range e.Args {
+					x, err := t.expr(a)
+					if err != nil {
+						return "", err
+					}
+					args = append(args, x)
+				}
+				if id, ok := se.X.(*ast.Ident); ok && t.recv != nil && t.p.info.Uses[id] == t.recv {
+					mi, ok := methods[key]
+					if !ok {
+						return "", t.bad(e, "call of %s, which is not a translated total method without field assignments", key)
+					}
+					for i, f := range mi.fields {
+						if old, ok := t.fieldKey[f]; ok && old != mi.keys[i] {
+							return "", t.bad(e, "field %s reached through two paths", f.Name())
+						}
+						t.fieldKey[f] = mi.keys[i]
+						args = append(args, t.name(f))
+					}
+					return "(" + mi.coq + " " + strings.Join(args, " ") + ")", nil
+				}
+				if xs, err := t.ity(t.p.info.Types[se.X].Type, se.X); err == nil && xs != "bool" {
+					cn, ok := t.total[key]
+					if !ok {
+						return "", t.bad(e, "call of %s, which is not a translated loop-free method", key)
+					}
+					x, err := t.expr(se.X)
+					if err != nil {
+						return "", err
+					}
+					return "(" + cn + " " + strings.Join(append([]string{x}, args...), " ") + ")", nil
+				}
+				return "", t.bad(e, "call of method %s on %s", fo.Name(), t.p.info.Types[se.X].Type)
 			}
 		}
 		var id *ast.Ident
@@ -1093,6 +1348,9 @@ func (t *tr) simple(s ast.Stmt, ind string) (string, error) {
 				if _, err := t.coqType(o.Type(), id); err != nil {
 					return "", err
 				}
+				if _, isSlice := o.Type().Underlying().(*types.Slice); isSlice {
+					return "", t.bad(s, "var declaration of a slice (a local slice must be created by `x := make(..)`)")
+				}
 				out += ind + "let " + t.name(o) + " := " + val + " in\n"
 			}
 		}
@@ -1118,7 +1376,88 @@ func (t *tr) simple(s ast.Stmt, ind string) (string, error) {
 			return "", err
 		}
 		return ind + "let " + l + " := (" + op + " " + ty + " " + l + " 1) in\n", nil
+	case *ast.ExprStmt:
+		call, ok := s.X.(*ast.CallExpr)
+		if !ok {
+			return "", t.bad(s, "statement %T", s)
+		}
+		name := t.beCall(call)
+		w, ok := beWidth[name]
+		if !ok || !strings.HasPrefix(name, "Put") || len(call.Args) != 2 {
+			return "", t.bad(s, "statement %T", s)
+		}
+		x, k, obj, err := t.beAccess(call.Args[0], w)
+		if err != nil {
+			return "", err
+		}
+		if obj != nil && t.sliceParam[obj] {
+			return "", t.bad(s, "store into the slice parameter %s (parameters are read-only in the fragment)", obj.Name())
+		}
+		v, err := t.expr(call.Args[1])
+		if err != nil {
+			return "", err
+		}
+		return fmt.Sprintf("%slet %s := (go_put_be%d %s %s %s) in\n", ind, x, w*8, x, k, v), nil
 	case *ast.AssignStmt:
+		for i, r := range s.Rhs {
+			if _, isSlice := t.p.info.Types[r].Type.Underlying().(*types.Slice); isSlice {
+				call, ok := r.(*ast.CallExpr)
+				fid, ok2 := ast.Expr(nil), false
+				if ok {
+					fid, ok2 = call.Fun.(*ast.Ident)
+				}
+				isMake := false
+				if ok2 {
+					if b, ok := t.p.info.Uses[fid.(*ast.Ident)].(*types.Builtin); ok && b.Name() == "make" {
+						isMake = true
+					}
+				}
+				lid, lok := s.Lhs[i%len(s.Lhs)].(*ast.Ident)
+				if !isMake || s.Tok != token.DEFINE || len(s.Lhs) != len(s.Rhs) || !lok || !t.sliceLocal[t.p.info.Defs[lid]] {
+					return "", t.bad(s, "assignment of a slice other than `x := make(..)` (two names for one array are not in the fragment)")
+				}
+			}
+		}
+		if len(s.Lhs) > 1 && len(s.Lhs) == len(s.Rhs) && s.Tok == token.ASSIGN {
+			anyIdx := false
+			for _, l := range s.Lhs {
+				if _, ok := l.(*ast.IndexExpr); ok {
+					anyIdx = true
+				}
+			}
+			if anyIdx { // a[i], a[j] = x, y : the right-hand sides are evaluated first, then the stores happen left to right
+				var tmps []string
+				out := ""
+				for _, r := range s.Rhs {
+					v, err := t.expr(r)
+					if err != nil {
+						return "", err
+					}
+					tmp := t.fresh("v_tmp")
+					tmps = append(tmps, tmp)
+					out += ind + "let " + tmp + " := " + v + " in\n"
+				}
+				for i, l := range s.Lhs {
+					if ie, ok := l.(*ast.IndexExpr); ok {
+						if tvI := t.p.info.Types[ie.Index]; tvI.Value == nil {
+							return "", t.bad(s, "tuple assignment to an element with a non-constant index")
+						}
+						st, err := t.indexStore(ie, tmps[i], ind)
+						if err != nil {
+							return "", err
+						}
+						out += st
+						continue
+					}
+					x, err := t.lhs(l)
+					if err != nil {
+						return "", err
+					}
+					out += ind + "let " + x + " := " + tmps[i] + " in\n"
+				}
+				return out, nil
+			}
+		}
 		if ie, ok := s.Lhs[0].(*ast.IndexExpr); ok && s.Tok == token.ASSIGN && len(s.Lhs) == 1 && len(s.Rhs) == 1 {
 			v, err := t.expr(s.Rhs[0])
 			if err != nil {
@@ -1201,14 +1540,20 @@ func (t *tr) indexStore(ie *ast.IndexExpr, val string, ind string) (string, erro
 	if err != nil {
 		return "", err
 	}
-	if !t.partial {
+	if o := t.sliceObj(ie.X); o != nil && t.sliceParam[o] {
+		return "", t.bad(ie, "store into the slice parameter %s (parameters are read-only in the fragment)", o.Name())
+	}
+	safe := t.inConstLen(ie.X, ie.Index, 1)
+	if !t.partial && !safe {
 		return "", t.bad(ie, "internal: index store in a function not marked partial")
 	}
 	j, err := t.expr(ie.Index)
 	if err != nil {
 		return "", err
 	}
-	t.guards = append(t.guards, "(andb (Z.leb 0 "+j+") (Z.ltb "+j+" (go_len "+x+")))")
+	if !safe {
+		t.guards = append(t.guards, "(andb (Z.leb 0 "+j+") (Z.ltb "+j+" (go_len "+x+")))")
+	}
 	return ind + "let " + x + " := (go_upd " + x + " " + j + " " + val + ") in\n", nil
 }
 
@@ -1389,7 +1734,16 @@ func (t *tr) seq(list []ast.Stmt, k string, ind string) (string, error) {
 				return ind + "None\n", nil
 			}
 		}
-		return "", t.bad(s, "statement %T", s)
+		pre, err := t.simple(s, ind)
+		if err != nil {
+			return "", err
+		}
+		g, err := t.takeGuards(k, s)
+		if err != nil {
+			return "", err
+		}
+		r, err := t.seq(rest, k, ind)
+		return guarded(g, ind, pre+r), err
 	case *ast.BranchStmt:
 		if s.Tok == token.BREAK && s.Label == nil && t.breakK != "" && len(rest) == 0 {
 			return ind + t.breakK + "\n", nil
@@ -1676,8 +2030,21 @@ func (t *tr) canPanic(b *ast.BlockStmt) bool {
 				found = true
 			}
 		case *ast.IndexExpr:
-			if _, ok := t.sliceElem(t.p.info.Types[n.X].Type); ok {
+			if _, ok := t.sliceElem(t.p.info.Types[n.X].Type); ok && !t.inConstLen(n.X, n.Index, 1) {
 				found = true
+			}
+		case *ast.CallExpr:
+			if w, ok := beWidth[t.beCall(n)]; ok && len(n.Args) >= 1 {
+				if xe, off, err := t.beArg(n.Args[0]); err != nil || !t.inConstLen(xe, off, w) {
+					found = true
+				}
+			}
+			if fid, ok := n.Fun.(*ast.Ident); ok && len(n.Args) == 2 {
+				if b, ok := t.p.info.Uses[fid].(*types.Builtin); ok && b.Name() == "make" {
+					if nv := t.p.info.Types[n.Args[1]].Value; nv == nil || constant.Sign(nv) < 0 {
+						found = true
+					}
+				}
 			}
 		case *ast.BinaryExpr:
 			if (n.Op == token.SHL || n.Op == token.SHR) && !t.isUnsignedOrConst(n.Y) {
@@ -1704,20 +2071,46 @@ func (t *tr) canPanic(b *ast.BlockStmt) bool {
 // scanFields collects the receiver fields the body mentions (parameters) and those it assigns (results), in the order of
 // the struct declaration.
 func (t *tr) scanFields(fd *ast.FuncDecl) error {
-	used, asg := map[*types.Var]bool{}, map[*types.Var]bool{}
+	used, asg := map[string]*types.Var{}, map[string]*types.Var{}
+	var bad error
+	note := func(m map[string]*types.Var, e ast.Expr) bool {
+		f, idx := t.recvPath(e)
+		if f == nil {
+			return false
+		}
+		m[fmt.Sprint(idx)] = f
+		return true
+	}
 	mark := func(e ast.Expr) {
 		if ie, ok := e.(*ast.IndexExpr); ok {
 			e = ie.X
 		}
-		if f := t.recvField(e); f != nil {
-			asg[f] = true
-		}
+		note(asg, e)
 	}
 	ast.Inspect(fd.Body, func(n ast.Node) bool {
 		switch n := n.(type) {
 		case *ast.SelectorExpr:
-			if f := t.recvField(n); f != nil {
-				used[f] = true
+			if note(used, n) {
+				return false
+			}
+		case *ast.CallExpr:
+			if se, ok := n.Fun.(*ast.SelectorExpr); ok {
+				if id, ok := se.X.(*ast.Ident); ok && t.p.info.Uses[id] == t.recv {
+					if sel := t.p.info.Selections[se]; sel != nil && sel.Kind() == types.MethodVal {
+						if nt, ok := derefNamed(sel.Obj().(*types.Func).Type().(*types.Signature).Recv().Type()); ok {
+							if mi, ok := methods[sel.Obj().Pkg().Path()+"."+nt.Obj().Name()+"."+sel.Obj().Name()]; ok {
+								for i, f := range mi.fields {
+									used[mi.keys[i]] = f
+								}
+							}
+						}
+					}
+				}
+			}
+			if name := t.beCall(n); strings.HasPrefix(name, "Put") && len(n.Args) >= 1 {
+				if xe, _, err := t.beArg(n.Args[0]); err == nil {
+					mark(xe)
+				}
 			}
 		case *ast.AssignStmt:
 			for _, l := range n.Lhs {
@@ -1736,16 +2129,40 @@ func (t *tr) scanFields(fd *ast.FuncDecl) error {
 	if !ok {
 		return t.bad(fd, "receiver of type %s", t.recv.Type())
 	}
-	for i := 0; i < st.NumFields(); i++ {
-		f := st.Field(i)
-		if used[f] {
-			t.fields = append(t.fields, f)
-		}
-		if asg[f] {
-			t.asg = append(t.asg, f)
+	var walk func(st *types.Struct, idx []int)
+	walk = func(st *types.Struct, idx []int) {
+		for i := 0; i < st.NumFields(); i++ {
+			f := st.Field(i)
+			key := fmt.Sprint(append(append([]int{}, idx...), i))
+			u, a := used[key], asg[key]
+			if u != nil || a != nil {
+				if old, ok := t.fieldKey[f]; ok && old != key {
+					bad = t.bad(fd, "field %s reached through two paths", f.Name())
+				}
+				t.fieldKey[f] = key
+				if u != nil || a != nil {
+					t.fields = append(t.fields, f) // an assigned field is also a parameter (its value on entry)
+				}
+				if a != nil {
+					t.asg = append(t.asg, f)
+				}
+				continue
+			}
+			if in, ok := f.Type().Underlying().(*types.Struct); ok {
+				walk(in, append(append([]int{}, idx...), i))
+			}
 		}
 	}
-	return nil
+	walk(st, nil)
+	return bad
+}
+
+func derefNamed(ty types.Type) (*types.Named, bool) {
+	if pt, ok := ty.(*types.Pointer); ok {
+		ty = pt.Elem()
+	}
+	nt, ok := ty.(*types.Named)
+	return nt, ok
 }
 
 func translate(p *pkgInfo, sp spec, total map[string]string) (coqName, text string, isTotal bool, err error) {
@@ -1774,28 +2191,77 @@ func translate(p *pkgInfo, sp spec, total map[string]string) (coqName, text stri
 	if fd == nil || fd.Body == nil {
 		return coqName, "", false, fmt.Errorf("%s: function %s not found (or has no body)", sp.Dir, sp.Name)
 	}
-	t := &tr{p: p, sp: sp, names: map[types.Object]string{}, used: map[string]int{}, total: total, optK: map[string]bool{}}
+	t := &tr{p: p, sp: sp, names: map[types.Object]string{}, used: map[string]int{}, total: total, optK: map[string]bool{},
+		sliceLocal: map[types.Object]bool{}, sliceParam: map[types.Object]bool{}, constLen: map[types.Object]int64{}, fieldKey: map[*types.Var]string{}}
+	if sp.Recv != "" {
+		coqName = "xl_" + p.pkg.Name() + "_" + sp.Recv + "_" + sp.Name + sp.Sfx
+		if sp.Recv == "aeadBlockCipher" { // the first translated method keeps its published name
+			coqName = "xl_" + p.pkg.Name() + "_" + sp.Name + sp.Sfx
+		}
+	}
+	sig := p.info.Defs[fd.Name].(*types.Func).Type().(*types.Signature)
+	params := ""
 	if fd.Recv != nil {
 		if len(fd.Recv.List[0].Names) != 1 {
 			return coqName, "", false, t.bad(fd, "method without a receiver name")
 		}
-		t.recv = p.info.Defs[fd.Recv.List[0].Names[0]]
-		if err := t.scanFields(fd); err != nil {
-			return coqName, "", false, err
+		rv := p.info.Defs[fd.Recv.List[0].Names[0]]
+		if rs, err := t.ity(rv.Type(), nil); err == nil && rs != "bool" {
+			t.valueRecv = true // method of an integer type: the receiver is the first parameter
+			params += " (" + t.name(rv) + " : Z)"
+		} else {
+			t.recv = rv
+			if err := t.scanFields(fd); err != nil {
+				return coqName, "", false, err
+			}
+		}
+	}
+	// local slices: `x := make([]T, n)`, each name defined once
+	ast.Inspect(fd.Body, func(n ast.Node) bool {
+		as, ok := n.(*ast.AssignStmt)
+		if !ok || as.Tok != token.DEFINE || len(as.Lhs) != len(as.Rhs) {
+			return true
+		}
+		for i, r := range as.Rhs {
+			call, ok := r.(*ast.CallExpr)
+			if !ok || len(call.Args) != 2 {
+				continue
+			}
+			fid, ok := call.Fun.(*ast.Ident)
+			if !ok {
+				continue
+			}
+			if b, ok := p.info.Uses[fid].(*types.Builtin); !ok || b.Name() != "make" {
+				continue
+			}
+			lid, ok := as.Lhs[i].(*ast.Ident)
+			if !ok || p.info.Defs[lid] == nil {
+				continue
+			}
+			if _, ok := t.sliceElem(p.info.Defs[lid].Type()); !ok {
+				continue
+			}
+			t.sliceLocal[p.info.Defs[lid]] = true
+			if nv := p.info.Types[call.Args[1]].Value; nv != nil && nv.Kind() == constant.Int {
+				if c, ok := constant.Int64Val(nv); ok && c >= 0 {
+					t.constLen[p.info.Defs[lid]] = c
+				}
+			}
+		}
+		return true
+	})
+	for i := 0; i < sig.Params().Len(); i++ {
+		if _, ok := t.sliceElem(sig.Params().At(i).Type()); ok {
+			t.sliceParam[sig.Params().At(i)] = true
 		}
 	}
 	t.partial = t.canPanic(fd.Body)
 	t.option = hasLoop(fd.Body) || t.partial
-	sig := p.info.Defs[fd.Name].(*types.Func).Type().(*types.Signature)
-	params := ""
 	for i := 0; i < sig.Params().Len(); i++ {
 		v := sig.Params().At(i)
 		ct, err := t.coqType(v.Type(), fd)
 		if err != nil {
 			return coqName, "", false, err
-		}
-		if _, ok := t.sliceElem(v.Type()); ok {
-			return coqName, "", false, t.bad(fd, "slice parameter %s (only receiver fields may be slices)", v.Name())
 		}
 		params += " (" + t.name(v) + " : " + ct + ")"
 	}
@@ -1840,6 +2306,9 @@ func translate(p *pkgInfo, sp spec, total map[string]string) (coqName, text stri
 	if err != nil {
 		return coqName, "", false, err
 	}
+	if t.usesNow {
+		params += " (v_now : Z)"
+	}
 	pos := p.fset.Position(fd.Pos())
 	end := p.fset.Position(fd.End())
 	src := p.src[pos.Filename][pos.Offset:end.Offset]
@@ -1850,7 +2319,20 @@ func translate(p *pkgInfo, sp spec, total map[string]string) (coqName, text stri
 		fmt.Fprintf(&sb, "(*   %s *)\n", strings.ReplaceAll(strings.ReplaceAll(strings.ReplaceAll(l, "\t", "    "), "(*", "( *"), "*)", "* )"))
 	}
 	fmt.Fprintf(&sb, "Definition %s%s : %s :=\n%s.\n", coqName, params, rt, strings.TrimRight(body, "\n"))
-	return coqName, sb.String(), !t.option, nil
+	if sp.Recv != "" && !t.option && !t.usesNow {
+		key := p.pkg.Path() + "." + sp.Recv + "." + sp.Name + sp.Sfx
+		if t.valueRecv {
+			total[key] = coqName
+		} else if len(t.asg) == 0 {
+			mi := methodInfo{coq: coqName, fields: t.fields}
+			for _, f := range t.fields {
+				mi.keys = append(mi.keys, t.fieldKey[f])
+			}
+			methods[key] = mi
+		}
+		return coqName, sb.String(), false, nil
+	}
+	return coqName, sb.String(), !t.option && !t.usesNow, nil
 }
 
 func main() {
